@@ -21,6 +21,9 @@ package tally
 //@ func mergeRightTags
 //@   property C04
 //@   ensures @nil_nil tagsLeft == nil && tagsRight == nil ==> result == nil
+//@   ensures @left_when_right_empty !(tagsLeft == nil && tagsRight == nil) && len(tagsRight) == 0 ==> result == tagsLeft
+//@   ensures @right_when_left_empty len(tagsRight) != 0 && len(tagsLeft) == 0 ==> result == tagsRight
+//@   ensures @fresh_otherwise len(tagsRight) != 0 && len(tagsLeft) != 0 ==> fresh(result)
 //@   ensures @dom forall k string :: (k in result) <==> (k in tagsLeft || k in tagsRight)
 //@   ensures @right_wins forall k string :: k in tagsRight ==> result[k] == tagsRight[k]
 //@   ensures @left_kept forall k string :: k in tagsLeft && !(k in tagsRight) ==> result[k] == tagsLeft[k]
@@ -769,7 +772,7 @@ package tally
 //@ func (*scope).clearMetrics
 //@   property C07, C08
 //@   requires scopeWF(s) && s.closed
-//@   requires @reported_after_close_was_observed flushed[s]
+//@   requires @reported_after_close_was_observed flushed[s] || (s.reporter == nil && s.cachedReporter == nil)
 //@   acquires s.cm, s.gm, s.tm, s.hm
 //@   modifies s.counters, s.countersSlice, s.gauges, s.gaugesSlice, s.timers, s.histograms, s.histogramsSlice
 //@   ensures @emptied len(s.counters) == 0 && len(s.gauges) == 0 && len(s.timers) == 0 && len(s.histograms) == 0
@@ -916,3 +919,21 @@ package tally
 //@   loop 1 invariant @keys forall k2 string :: k2 in result ==> (exists k string :: k in tags && seen(k) && k2 == pcall(Sanitizer.Key, s.sanitizer, k) && result[k2] == pcall(Sanitizer.Value, s.sanitizer, tags[k]))
 //@   loop 1 invariant @kept forall k string :: seen(k) ==> pcall(Sanitizer.Key, s.sanitizer, k) in result
 //@   loop 1 invariant @seen_in forall k string :: seen(k) ==> k in tags
+
+//@ func (*scopeRegistry).Subscope
+//@   property C04, C05, C07, C09
+//@   emits
+//@   allocs
+//@   witness created *scope = subscope
+//@   witness stags map[string]string = tags
+//@   requires registryWF(r) && len(r.subscopes) >= 1 && scopeWF(parent)
+//@   requires NoopScope != nil && is(NoopScope, *scope) && dyn(NoopScope, *scope) != nil
+//@   assume @existing_scopes_share_the_parents_reporters forall x *scope :: same(x.cachedReporter, parent.cachedReporter) && same(x.reporter, parent.reporter)
+//@   modifies *
+//@   ensures @inert_under_a_closed_scope old(r.root.closed) || old(parent.closed) ==> result == dyn(NoopScope, *scope)
+//@   ensures @result_is_a_scope result != nil
+//@   ensures @new_scope_shape created != nil ==> created == result && created.prefix == prefix && created.separator == parent.separator && same(created.reporter, parent.reporter) && same(created.cachedReporter, parent.cachedReporter) && same(created.baseReporter, parent.baseReporter) && same(created.defaultBuckets, parent.defaultBuckets) && same(created.sanitizer, parent.sanitizer) && created.registry == parent.registry && created.bucketCache == parent.bucketCache && created.testScope == parent.testScope && !created.root && !created.closed
+//@   ensures @new_scope_tags_overlay_parent_tags created != nil && len(stags) > 0 && len(parent.tags) > 0 ==> (forall k string :: (k in created.tags) <==> (k in parent.tags || k in stags)) && (forall k string :: k in stags ==> created.tags[k] == stags[k]) && (forall k string :: k in parent.tags && !(k in stags) ==> created.tags[k] == parent.tags[k])
+//@   ensures @new_scope_tags_no_new_tags created != nil && len(stags) == 0 ==> created.tags == parent.tags
+//@   ensures @new_scope_tags_no_parent_tags created != nil && len(stags) > 0 && len(parent.tags) == 0 ==> created.tags == stags
+//@   ensures @new_scope_is_well_formed created != nil ==> scopeWF(created) && fresh(created)
